@@ -64,6 +64,11 @@ pub struct TScenario {
     /// must not depend on who is listening
     #[serde(default)]
     pub log_level: u8,
+    /// the date the scenario starts at, seconds since 1970 (0 = the default, November 2023): a
+    /// steady clock is still an input — dates a few seconds before a power of two of the
+    /// milliseconds / seconds count (every 49.7 days, 2038, 2106) are part of the swarm
+    #[serde(default)]
+    pub epoch_s: u64,
 }
 
 pub struct TrackerEngine {
@@ -128,6 +133,19 @@ fn gen_position(rng: &mut Rng, tx: &mut Tx, t: f64) -> Vec<u8> {
 }
 
 fn gen_velocity(rng: &mut Rng, tx: &Tx) -> Vec<u8> {
+    if tx.addr[2] % 5 == 0 && rng.chance(0.6) {
+        // a steady leg: an exact compass direction (or an exact multiple of the same vector) and
+        // the same vertical rate, only the speed changes from report to report
+        let speed = *rng.pick(&[120u16, 125, 240, 250, 330, 500]);
+        let (ew, ns) = match tx.addr[1] % 4 {
+            0 => (0, speed),
+            1 => (speed, 0),
+            2 => (speed, speed),
+            _ => (speed / 5, 2 * (speed / 5)),
+        };
+        let sub = wire::sub_ground_speed(tx.addr[1] & 1, ew + 1, (tx.addr[1] >> 1) & 1, ns + 1);
+        return frame_for(tx, wire::me_velocity(1, 0, sub, 0, 0, 17, 0, 3));
+    }
     let st = [0u8, 1, 1, 1, 1, 1, 1, 2, 3, 3, 4, 5, 6, 7][rng.usize_below(14)];
     let kt = tx.speed_kms * 3600.0 / 1.852;
     let h = (tx.heading + rng.f64_range(-3.0, 3.0)).to_radians();
@@ -251,7 +269,7 @@ fn generate_long_haul(rng: &mut Rng) -> TScenario {
         }
         t += 0.5;
     }
-    TScenario { lat, lon, max_range: 1e9, events, log_level: 0 }
+    TScenario { lat, lon, max_range: 1e9, events, log_level: 0, epoch_s: 0 }
 }
 
 /// Inbound from far away: one aircraft is heard for minutes while still beyond the range limit
@@ -296,7 +314,7 @@ fn generate_long_inbound(rng: &mut Rng) -> TScenario {
         }
         t += 0.5;
     }
-    TScenario { lat, lon, max_range, events, log_level: 0 }
+    TScenario { lat, lon, max_range, events, log_level: 0, epoch_s: 0 }
 }
 
 /// Crowded sky: a few hundred distinct addresses with a handful of frames each and expiry cycles
@@ -350,7 +368,7 @@ fn generate_crowded(rng: &mut Rng) -> TScenario {
     let last = events.last().map(TEv::t).unwrap_or(0);
     let wait = *rng.pick(&[filter_t * NS, 10 * filter_t * NS, filter_t * NS + 1]);
     events.push(TEv::Prune { t: last + wait, secs: filter_t });
-    TScenario { lat, lon, max_range: 500.0, events, log_level: 0 }
+    TScenario { lat, lon, max_range: 500.0, events, log_level: 0, epoch_s: 0 }
 }
 
 /// More than 4096 aircraft tracked at once, a long silence, then new arrivals; the caller's own
@@ -380,7 +398,7 @@ fn generate_mega_crowd(rng: &mut Rng) -> TScenario {
         t += 50_000_000;
     }
     events.push(TEv::Prune { t, secs: 3600 });
-    TScenario { lat: 35.0, lon: -80.0, max_range: 500.0, events, log_level: 0 }
+    TScenario { lat: 35.0, lon: -80.0, max_range: 500.0, events, log_level: 0, epoch_s: 0 }
 }
 
 /// One contact heard 100 000+ times (a fixed transponder, an aircraft in a holding pattern),
@@ -401,7 +419,7 @@ fn generate_long_count(rng: &mut Rng) -> TScenario {
     let end = 1_000 + count as u64 * 10_000_000;
     events.push(TEv::Frame { t: end, hex: wire::hex(&wire::df17(5, b, wire::me_identification(4, 0, "OTHER"))), note: String::new() });
     events.push(TEv::Prune { t: end, secs: 1 << 40 });
-    TScenario { lat: 35.0, lon: -80.0, max_range: 500.0, events, log_level: 0 }
+    TScenario { lat: 35.0, lon: -80.0, max_range: 500.0, events, log_level: 0, epoch_s: 0 }
 }
 
 /// A survivor with a very long track (more than 8192 accepted positions) across expiry calls that
@@ -423,7 +441,7 @@ fn generate_long_track_with_expiry(rng: &mut Rng) -> TScenario {
     events.push(TEv::Prune { t: end, secs: 60 });
     events.push(TEv::Burst { t: end + dt, dt, hexes, count: 4 });
     events.push(TEv::Prune { t: end + 5 * dt, secs: 60 });
-    TScenario { lat, lon, max_range: 500.0, events, log_level: 0 }
+    TScenario { lat, lon, max_range: 500.0, events, log_level: 0, epoch_s: 0 }
 }
 
 #[allow(clippy::too_many_lines)]
@@ -483,6 +501,22 @@ pub fn generate(rng: &mut Rng, fault_free: bool, focus: &str) -> TScenario {
     }
     while pool.len() < 4 + rng.usize_below(5) {
         pool.push([rng.next_u64() as u8, rng.next_u64() as u8, rng.next_u64() as u8]);
+    }
+    if !fault_free && rng.chance(0.35) {
+        // related addresses: equal except for the top bits / one byte / one bit / byte order — what
+        // collides in anything that folds, truncates or hashes an address
+        for _ in 0..1 + rng.below(3) {
+            let a = pool[rng.usize_below(pool.len())];
+            let b = match rng.below(6) {
+                0 => [a[0] ^ ((1 + rng.below(15) as u8) << 4), a[1], a[2]],
+                1 => [a[0] ^ (1 + rng.below(255) as u8), a[1], a[2]],
+                2 => [a[0], a[1], a[2] ^ (1 << rng.below(8))],
+                3 => [a[2], a[1], a[0]],
+                4 => [a[0], a[1] ^ 0x80, a[2]],
+                _ => [a[0].wrapping_add(1), a[1], a[2]],
+            };
+            pool.push(b);
+        }
     }
 
     let per_tx_rate = 4.6; // frames per second of one transmitter, roughly
@@ -745,7 +779,7 @@ pub fn generate(rng: &mut Rng, fault_free: bool, focus: &str) -> TScenario {
             *t = t.saturating_sub(b);
         }
     }
-    TScenario { lat, lon, max_range, events, log_level: 0 }
+    TScenario { lat, lon, max_range, events, log_level: 0, epoch_s: 0 }
 }
 
 impl TrackerEngine {
@@ -791,6 +825,19 @@ impl Engine for TrackerEngine {
         let mut sc = generate(rng, fault_free, self.prop);
         if !fault_free {
             sc.log_level = *rng.pick(&[0u8, 0, 0, 1, 3, 4, 4, 5, 5]);
+            if rng.chance(0.06) {
+                // a few seconds before the clock's count of milliseconds / seconds passes a power
+                // of two (u32 ms wrap every 49.7 days; i32 s in 2038; u32 s in 2106; 2^41 ms in 2039)
+                let lead = 1 + rng.below(20);
+                let ms32 = 4_294_967_296u64; // 2^32 ms, in ms
+                let k = 396 + rng.below(60); // wraps between 2023 and 2031
+                sc.epoch_s = match rng.below(6) {
+                    0 | 1 | 2 => (k * ms32) / 1000 - lead,
+                    3 => (1u64 << 31) - lead,
+                    4 => (1u64 << 32) - lead,
+                    _ => (1u64 << 41) / 1000 - lead,
+                };
+            }
         }
         sc
     }
@@ -833,6 +880,9 @@ impl Engine for TrackerEngine {
         }
         if sc.log_level != 0 {
             c.push(TScenario { log_level: 0, ..sc.clone() });
+        }
+        if sc.epoch_s != 0 {
+            c.push(TScenario { epoch_s: 0, ..sc.clone() });
         }
         // simpler receiver / range
         if sc.lat != 0.0 || sc.lon != 0.0 {
